@@ -40,6 +40,19 @@ add("C16", "Hypothesis-generated terms and limit settings; independent step-by-s
     "every returned scheme is executed by an independent interpreter (leaf bookkeeping, index-summed-exactly-once, not-too-early, single final step, target order, value) and its reported scaling is recomputed.",
     "Trusted: scheme interpreter + F_p evaluator; RuntimeError under explicit limits is a documented refusal. Terms with more than 6 objects are not generated (scheme enumeration is exponential).")
 
+add("C10", "Hypothesis-generated terms/expressions; oracle: reported symmetries re-applied by independent reconstruction and valued in F_p, exploit_perm_sym parts re-expanded by axis swaps, independent re-implementation of the documented sort keys",
+    "Generated-input search in three sub-domains: (a) every reported entry of Term/Obj.symmetry must hold in value on 2 models; (b) exploit_perm_sym on constructed (1 +- P)(1 +- P')T expressions with generated target strings, "
+    "bra-ket symmetry and result-tensor kind must reproduce the value; (c) the five sort functions and filter_tensor must be lossless and key-correct.",
+    "Trusted: rebuild(), F_p evaluator, own key implementation. Terms whose symmetry enumeration is factorial (> 5 index occurrences per class) are not generated.")
+add("C13", "Hypothesis-generated orbital-energy fractions, sums and Fock terms; differential value oracle on F_p models with random orbital energies (D := reciprocal bracket, f := diag(e) / block diagonal)",
+    "Generated-input search: split/rebuild, sign canonicalisation, numerator symmetrisation, fraction cancellation, symbolic<->explicit denominators (both directions), grouping functions, Fock (block-)diagonalisation; "
+    "exact comparison in F_p with model resampling on vanishing denominators; documented refusals counted.",
+    "Trusted: F_p evaluator incl. brackets under negative powers; refusals = NotImplementedError/Inputerror/RuntimeError('Ambiguous signs')/TypeError('Invalid bracket') raised by the library's own validation.")
+add("C14", "Hypothesis-generated expressions with a designated tensor; oracle: exact re-contraction with canonical block tensors and orbit-derived weights; derivative vs. exactly interpolated first-order change in F_p",
+    "Generated-input search: remove_tensor blocks re-contracted with independently built block tensors (documented minimal index names, weight (2 if bra-ket)/|G| or 1/sqrt|G| for ADC amplitudes) must restore the value and carry the block symmetry; "
+    "derivative blocks contracted with a random variation must equal the linear coefficient of s -> E(T + s dT).",
+    "Trusted: F_p evaluator, documented naming rule for block indices; out-of-domain classes (different blocks in one term, Einstein-ambiguous block expressions) are excluded and counted.")
+
 NOT_YET = "check not built yet in this round (planned, see DESIGN.md)"
 
 def main():
